@@ -106,7 +106,7 @@ func CrossCheck(o *Options, res *Result, tag string, reqs []EReq, outs [][]byte,
 	if err := os.WriteFile(file, []byte(sb.String()), 0o644); err != nil {
 		return err
 	}
-	out, err := exec.Command("timeout", "900", "coqc", "-Q", o.CoqDir, "DT", "-Q", dir, "XC", file).CombinedOutput()
+	out, err := coqcCmd("900", "-Q", o.CoqDir, "DT", "-Q", dir, "XC", file).CombinedOutput()
 	if err != nil {
 		return fmt.Errorf("coqc on %s: %v\n%s", file, err, tail(string(out), 1200))
 	}
